@@ -26,6 +26,9 @@ def sh(*a: str, **kw) -> subprocess.CompletedProcess:
     return subprocess.run(a, capture_output=True, text=True, **kw)
 
 
+ONLY: list = []
+
+
 def run_patch(pdir: str, tier: str) -> dict:
     name = pdir.rstrip("/").replace("/", "_").strip("_")
     patch = os.path.abspath(os.path.join(pdir, "patch.diff"))
@@ -45,7 +48,7 @@ def run_patch(pdir: str, tier: str) -> dict:
             res["error"] = a.stderr[:200]
             return res
         env = dict(os.environ, VERIF_REPO=wt, VERIF_EVIDENCE_DIR=os.path.join(wt, ".ev"), VERIF_REPLAY_DIR=os.path.join(wt, ".replay"))
-        for c in CHECKS:
+        for c in (ONLY or CHECKS):
             p = sh(os.path.join(HERE, "check"), c, "--tier", tier, env=env)
             new = re.findall(r"^  FINDING (\S+) (.*?) @", p.stdout, re.M)
             err = re.findall(r"^ANALYSIS-ERROR.*$", p.stdout, re.M)
@@ -62,7 +65,9 @@ def main() -> int:
     ap.add_argument("--tier", default="quick")
     ap.add_argument("--jobs", type=int, default=8)
     ap.add_argument("--json", default=None)
+    ap.add_argument("--checks", default="", help="comma-separated subset of checks to run (default: all)")
     a = ap.parse_args()
+    ONLY.extend(c for c in a.checks.split(",") if c)
     out = []
     with cf.ThreadPoolExecutor(max_workers=a.jobs) as ex:
         for r in ex.map(lambda d: run_patch(d, a.tier), a.dirs):
